@@ -144,7 +144,8 @@ Ltac okstep_tac Hnz :=
 
 Lemma handle_tp_tstep pgn src dst r pgn' src' dst' len buf h r1 ev idx : pgn <> 0 ->
   handle_tp r pgn' src' dst' len buf = (h, r1, ev, idx) ->
-  tstep pgn src dst (now32 r) (r_slots r) (r_slots r1) /\ n_now (rn r1) = n_now (rn r) /\
+  tstep pgn src dst (now32 r) (r_slots r) (r_slots r1) /\
+  (n_now (rn r1) = n_now (rn r) /\ r_q r1 = r_q r /\ n_pgn (rn r1) = n_pgn (rn r) /\ c_only_known (r_cfg r1) = c_only_known (r_cfg r)) /\
   (idx <? nslots r1 = true -> 0 <= idx /\ s_tp (get_slot r1 idx) = true).
 Proof.
   intros Hnz H. unfold handle_tp in H. revert H. crack; intros H; injection H as E0 E1 E2 E3; subst h ev idx; subst r1.
@@ -155,7 +156,7 @@ Proof.
   all: try match goal with E : (?z =? nslots ?rr) = false |- _ => apply Z.eqb_neq in E; specialize (VUL ltac:(lia)) end.
   all: try match goal with E : (find_tp_slot ?sl ?a ?b 0 <? nslots ?rr) = true |- _ => apply Z.ltb_lt in E; unfold nslots in E; pose proof (proj2 FT E) as TPS end.
   all: split_rx; norm_rx.
-  all: (split; [|split; [try congruence; try (autorewrite with rxs in *; prj; congruence)|]]).
+  all: (split; [|split; [repeat split; try congruence; try (autorewrite with rxs in *; prj; congruence)|]]).
   all: try (rewrite ?zset_length; intros X; apply Z.ltb_lt in X; first [lia | split; [lia|]; rewrite znth_zset_eq by lia; reflexivity]).
   all: try apply tstep_refl; try exact TS1.
   all: try (eapply tstep_trans; [exact TS1|]; apply tstep_zset; okstep_tac Hnz).
@@ -252,7 +253,7 @@ Proof.
   intros Hnz Ht H. rewrite rx_frame_eq in H. destruct (can_id_to_n2k (r_id g)) as [[[pri pgn] src] dst] eqn:Hid.
   destruct (fields_of _ _ _ _ _ Hid) as (F1 & F2 & F3 & F4).
   destruct (handle_tp r pgn src dst (r_len g) (r_buf g)) as [[[h r1'] ev'] idx'] eqn:HT. destruct h.
-  - injection H as <- <- <-. destruct (handle_tp_tstep (fpgn f0) (fsrc f0) (fdst f0) _ _ _ _ _ _ _ _ _ _ Hnz HT) as (A & B & C).
+  - injection H as <- <- <-. destruct (handle_tp_tstep (fpgn f0) (fsrc f0) (fdst f0) _ _ _ _ _ _ _ _ _ _ Hnz HT) as (A & (B & _) & C).
     split; auto. split; auto. split; [unfold nslots; rewrite (proj1 A); reflexivity|]. intros Hlt. destruct (C Hlt) as [C1 C2]. split; auto.
     apply not_protected_tp. exact C2.
   - destruct (handle_tp_false _ _ _ _ _ _ _ _ _ HT) as (-> & -> & Hn).
@@ -290,4 +291,194 @@ Proof.
     assert (Hg2 : get_slot r2 idx = get_slot r1 idx) by (unfold get_slot; rewrite S2; reflexivity). rewrite Hg2.
     apply okstep_free; auto.
   - cbn [fst]. eapply holds_run_transfer; eauto.
+Qed.
+
+Lemma find_cont_zset_keep l pgn src dst i v : pgn <> 0 -> find_cont l pgn src dst 0 = i -> 0 <= i < Z.of_nat (length l) ->
+  key_match v pgn src dst = true -> find_cont (zset l i v) pgn src dst 0 = i.
+Proof.
+  intros Hnz Hf Hi Hv. pose proof (find_cont_spec pgn src dst l 0) as FC. cbv zeta in FC. rewrite Hf, Z.sub_0_r, Z.add_0_l in FC. destruct FC as (_ & _ & Fb).
+  rewrite (find_cont_unique pgn src dst (zset l i v) 0 (Z.to_nat i)).
+  - lia. - rewrite zset_length. lia.
+  - intros k Hk. unfold zset. rewrite nth_set_nth_neq by lia. apply Fb. exact Hk.
+  - unfold zset. rewrite nth_set_nth_eq by lia. exact Hv.
+Qed.
+Lemma now32_with_slots r l : now32 (with_slots r l) = now32 r.
+Proof. reflexivity. Qed.
+Lemma geb_run x y : (x >=? y) = (y <=? x).
+Proof. apply Z.geb_leb. Qed.
+
+Theorem rx_complete_first : rx_complete_first_stmt.
+Proof.
+  intros gf r f0 Hgf (Htp & Hfast & Hfirst & Hknown) Hslot. pose proof (fast_pgn_nz _ _ Hfast) as Hnz.
+  unfold rx_iter. rewrite rx_frame_nontp by exact Htp. unfold rx_nontp.
+  rewrite check_known_fields, Hfast. cbv zeta. rewrite Hknown, byte_fbyte, Hfirst. cbn [negb andb Z.eqb].
+  destruct (find_free_slot r (fpgn f0) (fsrc f0) (fdst f0) false) as [slots1 i] eqn:FF. cbn [snd] in Hslot.
+  destruct (find_free_slot_char _ _ _ _ _ _ _ FF) as (R & L1 & Ch).
+  apply Z.ltb_lt in Hslot. rewrite Hslot. apply Z.ltb_lt in Hslot. unfold nslots in Hslot.
+  rewrite mark_ready_eq. cbv zeta. rewrite get_slot_set_slot by (unfold nslots; cbn [r_slots with_slots]; lia). cbn [s_data s_len].
+  rewrite !byte_fbyte, (copy_buf_first 2) by lia.
+  unfold run_complete, run_msg. cbn [flat_map]. rewrite app_nil_r. rewrite geb_run.
+  match goal with |- context [set_slot (chk_slot ?a i) i ?x] => set (r2 := a); set (s' := x) end.
+  assert (Hr2 : r_slots r2 = zset slots1 i (znth (r_slots r2) i slot0)) by (subst r2; rewrite r_slots_set_slot; cbn [r_slots with_slots]; rewrite znth_zset_eq by lia; reflexivity).
+  assert (Hn2 : nslots r2 = nslots r) by (subst r2; autorewrite with rxs; unfold nslots; cbn [r_slots with_slots]; lia).
+  assert (Hn : nslots (set_slot (chk_slot r2 i) i s') = nslots r) by (autorewrite with rxs; exact Hn2).
+  destruct (fbyte f0 1 <=? Z.of_nat (length (firstn MAXLEN (chunk 2 f0)))) eqn:Er.
+  - rewrite Hn. replace (i <? nslots r) with true by (symmetry; apply Z.ltb_lt; unfold nslots; lia).
+    rewrite get_slot_chk_slot, get_slot_set_slot by (autorewrite with rxs; rewrite Hn2; unfold nslots; lia).
+    match goal with |- context [handle_system gf ?a s'] => pose proof (gf_ok_dlv gf a s' Hgf) as Hd; destruct (handle_system gf a s') as [r3 ev2] end.
+    cbn [fst snd] in *. rewrite !fp_dlv_app, (fp_dlv_nil _ Hd), fp_dlv_deliver. cbn [app slot_msg m_tp s_tp s'].
+    apply Z.leb_le in Er. unfold slot_msg. subst s'. cbn [s_pri s_pgn s_src s_dst s_len s_data s_tp]. rewrite fpri_land, firstn_app_short by lia. reflexivity.
+  - replace (nslots r2 <? nslots (set_slot (chk_slot r2 i) i s')) with false by (symmetry; apply Z.ltb_ge; rewrite Hn, Hn2; lia).
+    split; [reflexivity|]. exists i. apply Z.leb_gt in Er.
+    assert (Hsl : r_slots (set_slot (chk_slot r2 i) i s') = zset slots1 i s') by (autorewrite with rxs; subst r2; rewrite r_slots_set_slot; cbn [r_slots with_slots]; apply zset_zset).
+    split; [rewrite Hn; unfold nslots; lia|]. rewrite Hsl.
+    assert (Km : key_match s' (fpgn f0) (fsrc f0) (fdst f0) = true) by (unfold key_match; subst s'; cbn [s_pgn s_src s_dst s_tp]; rewrite !Z.eqb_refl; reflexivity).
+    split.
+    + rewrite (find_cont_unique (fpgn f0) (fsrc f0) (fdst f0) (zset slots1 i s') 0 (Z.to_nat i)); [lia | rewrite zset_length; lia | | ].
+      * intros k Hk. unfold zset. rewrite nth_set_nth_neq by lia. apply ff_match_key.
+        destruct Ch as [(-> & M & _)|(_ & -> & M & _)]; [apply M; exact Hk|]. unfold zset. rewrite nth_set_nth_neq by lia. apply M. lia.
+      * unfold zset. rewrite nth_set_nth_eq by lia. exact Km.
+    + cbv zeta. unfold get_slot. rewrite Hsl, znth_zset_eq by lia. subst s'. cbn [s_free s_tp s_pgn s_src s_dst s_pri s_len s_last s_data s_time flat_map length].
+      rewrite app_nil_r, Z.add_0_r, fpri_land. repeat split; auto.
+Qed.
+
+Lemma flat_map_snoc {A B} (f:A -> list B) l x : flat_map f (l ++ [x]) = flat_map f l ++ f x.
+Proof. rewrite flat_map_app. cbn. rewrite app_nil_r. reflexivity. Qed.
+
+Theorem rx_complete_cont : rx_complete_cont_stmt.
+Proof.
+  intros gf r f0 cs i t c Hgf (Htp0 & Hfast & Hfirst & Hknown) H (Kp & Ks & Kd) Htp Hseq Hnf. pose proof (fast_pgn_nz _ _ Hfast) as Hnz.
+  destruct H as (Hi & Hf & Hfree & Htpf & Hpgn & Hsrc & Hdst & Hpri & Hlen & Hlast & Hdata & Htime & Hnr). cbv zeta in *.
+  unfold rx_iter. rewrite rx_frame_nontp by exact Htp. unfold rx_nontp. rewrite Kp, Ks, Kd.
+  rewrite check_known_fields, Hfast. cbv zeta. rewrite Hknown, !byte_fbyte.
+  replace (Z.land (fbyte c 0) 31 =? 0) with false by (symmetry; apply Z.eqb_neq; exact Hnf). cbn [negb andb].
+  rewrite Hf. replace (i <? nslots r) with true by (symmetry; apply Z.ltb_lt; lia).
+  replace (s_last (get_slot r i) + 1 =? fbyte c 0) with true by (symmetry; apply Z.eqb_eq; lia).
+  rewrite mark_ready_eq. cbv zeta. rewrite get_slot_set_slot by lia. cbn [s_data s_len].
+  rewrite Hdata, copy_buf_append, <- app_assoc, <- flat_map_snoc, Hlen.
+  unfold run_complete, run_msg. rewrite geb_run.
+  set (X := firstn MAXLEN (chunk 2 f0 ++ flat_map (chunk 1) (cs ++ [c]))).
+  match goal with |- context [set_slot (chk_slot ?a i) i ?x] => set (r2 := a); set (s' := x) end.
+  assert (Hn2 : nslots r2 = nslots r) by (subst r2; autorewrite with rxs; reflexivity).
+  assert (Hn : nslots (set_slot (chk_slot r2 i) i s') = nslots r) by (autorewrite with rxs; exact Hn2).
+  destruct (fbyte f0 1 <=? Z.of_nat (length X)) eqn:Er.
+  - rewrite Hn. replace (i <? nslots r) with true by (symmetry; apply Z.ltb_lt; lia).
+    rewrite get_slot_chk_slot, get_slot_set_slot by (autorewrite with rxs; rewrite Hn2; lia).
+    match goal with |- context [handle_system gf ?a s'] => pose proof (gf_ok_dlv gf a s' Hgf) as Hd; destruct (handle_system gf a s') as [r3 ev2] end.
+    cbn [fst snd] in *. rewrite !fp_dlv_app, (fp_dlv_nil _ Hd), fp_dlv_deliver. cbn [app slot_msg m_tp s_tp s']. rewrite Htpf.
+    apply Z.leb_le in Er. unfold slot_msg. subst s'. cbn [s_pri s_pgn s_src s_dst s_len s_data s_tp]. rewrite Hpri, Hpgn, Hsrc, Hdst, Htpf, firstn_app_short by lia. reflexivity.
+  - replace (nslots r2 <? nslots (set_slot (chk_slot r2 i) i s')) with false by (symmetry; apply Z.ltb_ge; rewrite Hn, Hn2; lia).
+    split; [reflexivity|]. apply Z.leb_gt in Er.
+    assert (Hsl : r_slots (set_slot (chk_slot r2 i) i s') = zset (r_slots r) i s') by (autorewrite with rxs; subst r2; rewrite r_slots_set_slot; apply zset_zset).
+    split; [rewrite Hn; lia|]. rewrite Hsl.
+    assert (Km : key_match s' (fpgn f0) (fsrc f0) (fdst f0) = true) by (unfold key_match; subst s'; cbn [s_pgn s_src s_dst s_tp]; rewrite Hpgn, Hsrc, Hdst, Htpf, !Z.eqb_refl; reflexivity).
+    split; [apply find_cont_zset_keep; auto; unfold nslots in Hi; lia|].
+    cbv zeta. unfold get_slot. rewrite Hsl, znth_zset_eq by (unfold nslots in Hi; lia). subst s'. cbn [s_free s_tp s_pgn s_src s_dst s_pri s_len s_last s_data s_time].
+    rewrite app_length. cbn [length]. repeat split; auto. lia.
+Qed.
+
+(* ---------------- what one iteration never touches ---------------- *)
+Lemma rx_nontp_frame r pri pgn src dst f r1 ev idx : rx_nontp r pri pgn src dst f = (r1, ev, idx) ->
+  r_q r1 = r_q r /\ n_pgn (rn r1) = n_pgn (rn r) /\ c_only_known (r_cfg r1) = c_only_known (r_cfg r) /\ n_now (rn r1) = n_now (rn r).
+Proof.
+  unfold rx_nontp, mark_ready. intros H. revert H. crack; intros H; injection H as E1 E2 E3; subst r1.
+  all: split_rx; autorewrite with rxs in *; prj; repeat split; congruence.
+Qed.
+Lemma rx_frame_frame r f r1 ev idx : rx_frame r f = (r1, ev, idx) ->
+  r_q r1 = r_q r /\ n_pgn (rn r1) = n_pgn (rn r) /\ c_only_known (r_cfg r1) = c_only_known (r_cfg r) /\ n_now (rn r1) = n_now (rn r).
+Proof.
+  intros H. rewrite rx_frame_eq in H. destruct (can_id_to_n2k (r_id f)) as [[[pri pgn] src] dst].
+  destruct (handle_tp r pgn src dst (r_len f) (r_buf f)) as [[[h r1'] ev'] idx'] eqn:HT. destruct h.
+  - injection H as <- <- <-. destruct (handle_tp_tstep 1 0 0 _ _ _ _ _ _ _ _ _ _ ltac:(lia) HT) as (_ & (A & B & C & D) & _). auto.
+  - destruct (handle_tp_false _ _ _ _ _ _ _ _ _ HT) as (-> & -> & _). apply rx_nontp_frame in H. exact H.
+Qed.
+Lemma rx_iter_frame gf r f : gf_ok gf ->
+  r_q (fst (rx_iter gf r f)) = r_q r /\ n_pgn (rn (fst (rx_iter gf r f))) = n_pgn (rn r) /\
+  c_only_known (r_cfg (fst (rx_iter gf r f))) = c_only_known (r_cfg r) /\ n_now (rn (fst (rx_iter gf r f))) = n_now (rn r).
+Proof.
+  intros Hgf. unfold rx_iter. destruct (rx_frame r f) as [[r1 ev1] idx] eqn:RF. destruct (rx_frame_frame _ _ _ _ _ RF) as (A & B & C & D).
+  destruct (idx <? nslots r1); [|cbn [fst]; auto].
+  know (handle_system gf (chk_slot r1 idx) (get_slot (chk_slot r1 idx) idx)).
+  destruct (handle_system gf (chk_slot r1 idx) (get_slot (chk_slot r1 idx) idx)) as [r2 ev2]. destruct K as [(S2 & Q2 & N2 & C2 & W2) _].
+  cbn [fst snd] in *. autorewrite with rxs in *. repeat split; congruence.
+Qed.
+Lemma fast_first_same r r' f0 : n_pgn (rn r') = n_pgn (rn r) -> c_only_known (r_cfg r') = c_only_known (r_cfg r) -> fast_first r f0 -> fast_first r' f0.
+Proof. unfold fast_first. intros -> ->. auto. Qed.
+
+Lemma run_complete_prefix_false f0 (a b:list rxframe) :
+  (forall cs', (length cs' < length (a ++ b))%nat -> cs' = firstn (length cs') (a ++ b) -> run_complete f0 cs' = false) -> b <> [] -> run_complete f0 a = false.
+Proof.
+  intros H Hb. apply H. - rewrite app_length. destruct b; [congruence|]. cbn [length]. lia.
+  - rewrite firstn_app, Nat.sub_diag, firstn_all. cbn. rewrite app_nil_r. reflexivity.
+Qed.
+
+(* the rest of a run, interleaved with other traffic, inside one ParseMessages loop *)
+Lemma loop_run gf f0 i t : gf_ok gf -> forall q k r done rest,
+  fast_first r f0 -> holds_run r f0 done i t -> has_elapsed t c_Max_N2kMsgBuf_Time (now32 r) = false ->
+  r_q r = q -> interleaved f0 rest q -> seq_ok (fbyte f0 0 + Z.of_nat (length done)) rest f0 -> (length q <= k)%nat ->
+  run_complete f0 (done ++ rest) = true ->
+  (forall cs', (length cs' < length (done ++ rest))%nat -> cs' = firstn (length cs') (done ++ rest) -> run_complete f0 cs' = false) ->
+  rest <> [] -> In (run_msg f0 (done ++ rest)) (fp_dlv (snd (rx_loop gf k r))).
+Proof.
+  intros Hgf. induction q as [|g q IH]; intros k r done rest FF H He Hq Hint Hseq Hk Hc Hmin Hne.
+  - cbn in Hint. congruence.
+  - destruct k as [|k]; [cbn in Hk; lia|]. rewrite rx_loop_iter, Hq.
+    set (r0 := with_rxq r q).
+    assert (FF0 : fast_first r0 f0) by (eapply fast_first_same; [| |exact FF]; reflexivity).
+    assert (H0 : holds_run r0 f0 done i t) by exact H.
+    destruct (rx_iter_frame gf r0 g Hgf) as (Fq & Fp & Fc & Fn).
+    assert (He1 : has_elapsed t c_Max_N2kMsgBuf_Time (now32 (fst (rx_iter gf r0 g))) = false) by (unfold now32, now in *; rewrite Fn; exact He).
+    cbn [interleaved] in Hint. destruct Hint as [(rest' & -> & Hint)|(Hnt & Hint)].
+    + (* the next frame of the run *)
+      cbn [seq_ok] in Hseq. destruct Hseq as (Sk & Stp & Sb & Snf & Sseq).
+      pose proof (rx_complete_cont gf r0 f0 done i t g Hgf FF0 H0 Sk Stp ltac:(lia) Snf) as B.
+      destruct (rx_iter gf r0 g) as [r1 ev] eqn:RI. cbn [fst snd] in *.
+      destruct (run_complete f0 (done ++ [g])) eqn:Cg.
+      * assert (rest' = []).
+        { destruct rest' as [|x rest']; auto. exfalso.
+          assert (X : run_complete f0 (done ++ [g]) = false).
+          { apply (run_complete_prefix_false f0 (done ++ [g]) (x :: rest')); [|congruence]. rewrite <- app_assoc. exact Hmin. }
+          congruence. }
+        subst rest'. destruct (rx_loop gf k r1) as [r2 ev2]. cbn [snd]. rewrite fp_dlv_app, B. left. reflexivity.
+      * destruct B as [B1 B2].
+        assert (Hne' : rest' <> []) by (intros ->; congruence).
+        specialize (IH k r1 (done ++ [g]) rest').
+        destruct (rx_loop gf k r1) as [r2 ev2] eqn:RL. cbn [snd] in *. rewrite fp_dlv_app, in_app_iff. right.
+        replace (done ++ g :: rest') with ((done ++ [g]) ++ rest') by (rewrite <- app_assoc; reflexivity).
+        apply IH; auto.
+        -- eapply fast_first_same; [| |exact FF0]; auto.
+        -- rewrite app_length. cbn [length]. replace (fbyte f0 0 + Z.of_nat (length done + 1)) with (fbyte f0 0 + Z.of_nat (length done) + 1) by lia. exact Sseq.
+        -- cbn [length] in Hk. lia.
+        -- rewrite <- app_assoc. exact Hc.
+        -- rewrite <- app_assoc. exact Hmin.
+    + (* a frame of other traffic *)
+      pose proof (rx_complete_other gf r0 f0 done i t g Hgf H0 (proj1 (proj2 FF0)) Hnt He) as C.
+      destruct (rx_iter gf r0 g) as [r1 ev] eqn:RI. cbn [fst snd] in *.
+      specialize (IH k r1 done rest). destruct (rx_loop gf k r1) as [r2 ev2] eqn:RL. cbn [snd] in *. rewrite fp_dlv_app, in_app_iff. right.
+      apply IH; auto.
+      * eapply fast_first_same; [| |exact FF0]; auto.
+      * cbn [length] in Hk. lia.
+Qed.
+
+Theorem rx_complete_poll : rx_complete_poll_stmt.
+Proof.
+  intros gf r f0 cs q k Hgf FF Hq Hint Hseq Hk Hc Hmin Hslot.
+  destruct k as [|k]; [lia|]. rewrite rx_loop_iter, Hq. set (r0 := with_rxq r q) in *.
+  assert (FF0 : fast_first r0 f0) by (eapply fast_first_same; [| |exact FF]; reflexivity).
+  assert (Hs0 : snd (find_free_slot r0 (fpgn f0) (fsrc f0) (fdst f0) false) < nslots r0) by exact Hslot.
+  pose proof (rx_complete_first gf r0 f0 Hgf FF0 Hs0) as A.
+  destruct (rx_iter_frame gf r0 f0 Hgf) as (Fq & Fp & Fc & Fn).
+  destruct (rx_iter gf r0 f0) as [r1 ev] eqn:RI. cbn [fst snd] in *.
+  destruct (run_complete f0 []) eqn:C0.
+  - assert (cs = []).
+    { destruct cs as [|x cs]; auto. exfalso. assert (X : run_complete f0 [] = false) by (apply (run_complete_prefix_false f0 [] (x :: cs)); [exact Hmin|congruence]). congruence. }
+    subst cs. destruct (rx_loop gf k r1) as [r2 ev2]. cbn [snd]. rewrite fp_dlv_app, A. left. reflexivity.
+  - destruct A as [A1 (i & A2)].
+    assert (Hne : cs <> []) by (intros ->; congruence).
+    pose proof (loop_run gf f0 i (now32 r0) Hgf q k r1 [] cs) as L. destruct (rx_loop gf k r1) as [r2 ev2] eqn:RL. cbn [snd] in *.
+    rewrite fp_dlv_app, in_app_iff. right. apply L; auto.
+    + eapply fast_first_same; [| |exact FF0]; auto.
+    + unfold now32, now. rewrite Fn. apply has_elapsed_self.
+    + cbn [length]. rewrite Z.add_0_r. exact Hseq.
+    + lia.
 Qed.
